@@ -16,8 +16,8 @@
                                       element universe: Uint8/16/32/64Value (tag 161..164 + canonical
                                       uint), StringValue (text string), SomeStorable (tag 165, or
                                       tag 167 [levels, inner] when nested more than once)
-   NOT modelled (covered by the Go-side oracles of `harness codec` only): inlined arrays/maps and the
-   shared inlined-extra-data section (incl. compact maps), version-0 decoders, the uint32
+   NOT modelled HERE: inlined arrays/maps and the shared inlined-extra-data section (incl. compact maps) —
+   they are modelled in CodecInl.v; not modelled anywhere: version-0 decoders, the uint32
    overflow guards on sizes (they need encodings of 4 GiB).
 
    Bytes are [N] with well-formedness [< 256]; shifts are [/] and [mod]; only the head flags use
